@@ -1,6 +1,6 @@
 # Sizing and claim for C13 (see props/__init__.py)
 SPEC = {
-        "quick": {"rc_cases": 250000, "rc_procs": 8, "enum": True},
+        "quick": {"rc_cases": 200000, "rc_procs": 8, "enum": True},
         "thorough": {"rc_cases": 600000, "rc_procs": 8, "enum": True, "fuzz_secs": 90, "fuzz_workers": 6},
         "claim": {
             "category": "exploration",
